@@ -1,14 +1,15 @@
 #!/usr/bin/env python3
 """Consolidates findings/*.json into KNOWN_FINDINGS.json (the single committed known-findings file).
-Entries are keyed by (property, key); findings/*.json stay as the per-property sources."""
+Entries are keyed by (property, key) — fixed entries also by their commit; findings/*.json stay as the per-property sources."""
 import glob, json, os
 base = os.path.dirname(os.path.dirname(os.path.abspath(__file__)))
 kf = os.path.join(base, 'KNOWN_FINDINGS.json')
 data = json.load(open(kf))
-items = {(f['property'], f['key']): f for f in data.get('findings', [])}
+K = lambda f: (f['property'], f['key'], f.get('commit', '') if f.get('status') == 'fixed' else '')
+items = {K(f): f for f in data.get('findings', [])}
 for p in sorted(glob.glob(os.path.join(base, 'findings', '*.json'))):
     for f in json.load(open(p)):
-        items[(f['property'], f['key'])] = f
+        items[K(f)] = f
 out = sorted(items.values(), key=lambda f: (f['property'], f.get('status', ''), f['key']))
 data['findings'] = out
 data['summary'] = {'known': sum(1 for f in out if f.get('status') == 'known'), 'fixed': sum(1 for f in out if f.get('status') == 'fixed')}
